@@ -86,7 +86,7 @@ typedef enum { ST_FREE, ST_NEW, ST_RUN, ST_LOCK, ST_COND, ST_WOKEN, ST_JOIN, ST_
 static const char *st_name[] = { "free", "new", "run", "lock", "cond", "woken", "join", "joinsubs", "waitall", "done" };
 typedef struct {
     pthread_t th; pthread_cond_t cv; tstate st; int join_target; int woke_by; int detached; int is_sub;
-    void *(*fn)(void *); void *arg; int joined;
+    void *(*fn)(void *); void *arg; int joined; int seg_fresh;
 } thr_t;
 static thr_t T[MAXT];
 static int nT;
@@ -101,6 +101,7 @@ static pthread_cond_t *cv_addr; static int cv_state;
 static void *pool_blk; static size_t pool_len; static int pool_freed;
 static int next_detached;
 static int n_create, n_spurious, n_events;
+static int g_shim_on;
 
 static uint64_t rnd(void) { rng ^= rng << 13; rng ^= rng >> 7; rng ^= rng << 17; return rng; }
 
@@ -157,6 +158,7 @@ static void sched(tstate st) {
     if (next < 0) fault("scheduler-no-thread");
     switch_to(next);
     /* picked: the guard holds (or, for ST_COND, this is a spurious wake-up) */
+    T[me].seg_fresh = 1;
 }
 
 #define EV(...) do { printf("T%d ", me); printf(__VA_ARGS__); printf("\n"); n_events++; } while (0)
@@ -356,9 +358,56 @@ int shim_list_free(m_list_t **l) {
     return m_list_free(l);
 }
 
+/* ---- plain memory accesses of thpool.c ----
+ * thpool.c is compiled with -fsanitize=thread *instrumentation only*; the __tsan_* entry points are
+ * ours.  The first access to the pool object after a scheduling point is itself a scheduling point
+ * (`T<i> @`): what a thread does to the pool between two library calls happens atomically at that
+ * place.  Every access is logged (`T<i> . r|w|a <offset>`) for the race detector of the monitor;
+ * an access to released memory is a fault. */
+#define MAXFREED 4096
+static struct { char *p; size_t n; } freed[MAXFREED];
+static int nfreed;
+static void note_freed(void *p, size_t n) { if (nfreed < MAXFREED) { freed[nfreed].p = p; freed[nfreed].n = n; nfreed++; } }
+static void note_alloc(void *p, size_t n) {
+    for (int i = 0; i < nfreed; i++)
+        if ((char *)p < freed[i].p + freed[i].n && freed[i].p < (char *)p + n) { freed[i] = freed[--nfreed]; i--; }
+}
+static void pool_access(void *addr, int kind) {
+    char *a = addr;
+    static const char kn[] = "rwa";
+    if (!g_shim_on) return;
+    if (pool_blk && a >= (char *)pool_blk && a < (char *)pool_blk + pool_len) {
+        if (pool_freed) { char b[96]; snprintf(b, sizeof b, "use-after-free access to the freed pool (+%ld) by T%d", (long)(a - (char *)pool_blk), me); fault(b); }
+        if (T[me].seg_fresh) { sched(ST_RUN); EV("@"); }
+        T[me].seg_fresh = 0;
+        printf("T%d . %c %ld\n", me, kn[kind], (long)(a - (char *)pool_blk));
+        return;
+    }
+    for (int i = 0; i < nfreed; i++)
+        if (a >= freed[i].p && a < freed[i].p + freed[i].n) { char b[96]; snprintf(b, sizeof b, "use-after-free access to released memory by T%d", me); fault(b); }
+}
+void __tsan_init(void) {}
+void __tsan_func_entry(void *pc) { (void)pc; }
+void __tsan_func_exit(void) {}
+#define TSAN_RW(n) \
+    void __tsan_read##n(void *a) { pool_access(a, 0); } \
+    void __tsan_write##n(void *a) { pool_access(a, 1); } \
+    void __tsan_unaligned_read##n(void *a) { pool_access(a, 0); } \
+    void __tsan_unaligned_write##n(void *a) { pool_access(a, 1); }
+TSAN_RW(1) TSAN_RW(2) TSAN_RW(4) TSAN_RW(8) TSAN_RW(16)
+void __tsan_read_range(void *a, long n) { (void)n; pool_access(a, 0); }
+void __tsan_write_range(void *a, long n) { (void)n; pool_access(a, 1); }
+#define TSAN_ATOMIC(bits, ty) \
+    ty __tsan_atomic##bits##_load(const volatile ty *a, int mo) { (void)mo; pool_access((void *)a, 2); return __atomic_load_n(a, __ATOMIC_SEQ_CST); } \
+    void __tsan_atomic##bits##_store(volatile ty *a, ty v, int mo) { (void)mo; pool_access((void *)a, 2); __atomic_store_n(a, v, __ATOMIC_SEQ_CST); } \
+    ty __tsan_atomic##bits##_fetch_add(volatile ty *a, ty v, int mo) { (void)mo; pool_access((void *)a, 2); return __atomic_fetch_add(a, v, __ATOMIC_SEQ_CST); } \
+    ty __tsan_atomic##bits##_fetch_sub(volatile ty *a, ty v, int mo) { (void)mo; pool_access((void *)a, 2); return __atomic_fetch_sub(a, v, __ATOMIC_SEQ_CST); } \
+    ty __tsan_atomic##bits##_exchange(volatile ty *a, ty v, int mo) { (void)mo; pool_access((void *)a, 2); return __atomic_exchange_n(a, v, __ATOMIC_SEQ_CST); }
+TSAN_ATOMIC(8, unsigned char) TSAN_ATOMIC(16, unsigned short) TSAN_ATOMIC(32, unsigned int) TSAN_ATOMIC(64, unsigned long)
+
 /* ---- memhook ---- */
-static void *my_malloc(size_t n) { void *p = malloc(n); if (p) { outstanding++; blk_add(p, n); } return p; }
-static void *my_calloc(size_t a, size_t b) { void *p = calloc(a, b); if (p) { outstanding++; blk_add(p, a * b); } return p; }
+static void *my_malloc(size_t n) { void *p = malloc(n); if (p) { outstanding++; blk_add(p, n); note_alloc(p, n); } return p; }
+static void *my_calloc(size_t a, size_t b) { void *p = calloc(a, b); if (p) { outstanding++; blk_add(p, a * b); note_alloc(p, a * b); } return p; }
 static void my_free(void *p) {
     if (!p) return;
     if (p == pool_blk && !pool_freed) {
@@ -366,7 +415,9 @@ static void my_free(void *p) {
         EV("free pool");
         pool_freed = 1;
     }
-    outstanding--; blk_del(p);
+    outstanding--;
+    for (int i = 0; i < MAXBLK; i++) if (blk[i].p == p) note_freed(p, blk[i].n);
+    blk_del(p);
     free(p);
 }
 
@@ -399,7 +450,7 @@ static void run_script(const script_t *s) {
     memset(T, 0, sizeof T); nT = 1; me = 0; token = 0;
     pthread_cond_init(&T[0].cv, NULL); T[0].st = ST_RUN;
     mx_addr = NULL; mx_state = 0; mx_owner = -1; cv_addr = NULL; cv_state = 0;
-    pool_blk = NULL; pool_freed = 0; next_detached = 0; n_create = 0; n_spurious = 0; n_events = 0;
+    pool_blk = NULL; pool_freed = 0; next_detached = 0; n_create = 0; n_spurious = 0; n_events = 0; nfreed = 0; g_shim_on = 1;
     printf("cfg threads=%d lazy=%d detached=%d\n", cfg_threads, cfg_flags & 1, (cfg_flags >> 1) & 1);
 
     pthread_mutex_lock(&G);
@@ -419,6 +470,7 @@ static void run_script(const script_t *s) {
     T[me].st = ST_RUN;
     pthread_mutex_unlock(&G);
     for (int i = 1; i < nT; i++) if (T[i].is_sub) pthread_join(T[i].th, NULL);
+    g_shim_on = 0;
     printf("end live=%ld spurious=%d events=%d\n", (long)outstanding, n_spurious, n_events);
 }
 
